@@ -49,7 +49,7 @@ def run(eng, tier):
     for p in oks:
         saves = [w for w in p.writes if w['ns'] == 'contract_info']
         eng.ob(len(saves) == 1 and len(p.writes) == 1 and saves[0]['op'] == 'save', PROP, 'one-write', V_,
-               'an accepted ModifyContract must write the configuration exactly once and nothing else; found %s' % [(w['op'], w['ns']) for w in p.writes], detail=p.describe(14))
+               'an accepted ModifyContract must write the configuration exactly once and nothing else; found %s' % [(w['op'], w['ns']) for w in p.writes], where=p, detail=p.describe(14))
         if len(saves) != 1: continue
         w = saves[0]; sp = w['fpos']
         ups = upd_paths(w['val'], CFG)
@@ -66,9 +66,9 @@ def run(eng, tier):
         bid_open = p.holds(('storage_is_empty', 'bid', 0), False) is not None
         ask_empty = p.holds(('storage_is_empty', 'ask', 0), True) is not None
         bid_empty = p.holds(('storage_is_empty', 'bid', 0), True) is not None
-        eng.ob((ask_open != ask_empty) and (bid_open != bid_empty), PROP, 'guard', 'book-emptiness-decided', 'the change is accepted without testing whether each side of the book is empty', detail=p.describe(20))
+        eng.ob((ask_open != ask_empty) and (bid_open != bid_empty), PROP, 'guard', 'book-emptiness-decided', 'the change is accepted without testing whether each side of the book is empty', where=p, detail=p.describe(20))
         g = p.holds(CONTAINS(F(CFG, 'executors'), SENDER), True)
-        eng.ob(g is not None and g < sp, PROP, 'guard', 'executor', 'configuration saved without the executor fact', detail=p.describe(12))
+        eng.ob(g is not None and g < sp, PROP, 'guard', 'executor', 'configuration saved without the executor fact', where=p, detail=p.describe(12))
         # lists
         for fld in ('approvers', 'executors'):
             mv = M(V_, fld); st = p.variant_of(mv)
@@ -82,7 +82,7 @@ def run(eng, tier):
         for side in ('ask', 'bid'):
             rate = M(V_, side + '_fee_rate'); acct = M(V_, side + '_fee_account'); fld = side + '_fee_info'
             rs, as_ = p.variant_of(rate), p.variant_of(acct)
-            eng.ob(rs == as_ and rs in ('Some', 'None'), PROP, 'guard', side + ':fee-pair', 'a half-supplied %s fee pair is accepted (rate %s, account %s)' % (side, rs, as_), detail=p.describe(12))
+            eng.ob(rs == as_ and rs in ('Some', 'None'), PROP, 'guard', side + ':fee-pair', 'a half-supplied %s fee pair is accepted (rate %s, account %s)' % (side, rs, as_), where=p, detail=p.describe(12))
             open_ = ask_open if side == 'ask' else bid_open
             if rs == 'Some' and as_ == 'Some':
                 seen[fld] += 1
